@@ -13,7 +13,7 @@
 /* the array may move at most once per run (which enqueue it is, is arbitrary) */
 static _Bool cmv_moved;
 #define CMV_HH_MAY_MOVE() (!cmv_moved && nondet_bool() ? (cmv_moved = 1) : 0)
-#include "hhstub.h"
+#include "hhstub_sorted.h"   /* the layout C01 was validated with: heap[1..n] sorted */
 #include "cmb_process.h"
 #include "cmi_process.h"
 
